@@ -179,6 +179,12 @@ func (e *admitEnv) admitSetup(a *app.App, ctx sdk.Context, ws []string) error {
 				return fmt.Errorf("create market: %w", err)
 			}
 		}
+		// the resting orders of a fill line are created now, under the configuration as requested
+		if err := e.admitCreateOrders(a, ctx, ws); err != nil {
+			return fmt.Errorf("create orders: %w", err)
+		}
+	} else if v := kvArg(ws, "orders"); v != "" && v != "-" {
+		return fmt.Errorf("orders without a market")
 	}
 	for _, st := range post {
 		if err := e.admitRunStep(a, ctx, st); err != nil {
@@ -208,6 +214,11 @@ func admitClass(err error) string {
 	m := err.Error()
 	has := func(s string) bool { return strings.Contains(m, s) }
 	switch {
+	case has("not found") && has("order"), has(": expected bid"), has(": expected ask"),
+		has("does not equal requested market id"), has("as the requested seller"), has("as the requested buyer"):
+		return "err:order"
+	case has("does not equal sum of"):
+		return "err:total"
 	case has("does not exist"):
 		return "err:market"
 	case has("is not accepting orders"), has("is not accepting commitments"):
@@ -356,6 +367,47 @@ func (e *admitEnv) exec(op string) string {
 				return "err:invalid"
 			}
 			_, err = ms.CommitFunds(ctx, msg)
+		case "fillbids", "fillasks":
+			if kvArg(ws, "ids") == "" {
+				return e.execFillGate(ctx, ms, ws)
+			}
+			if ws[0] == "fillbids" {
+				msg := &exchange.MsgFillBidsRequest{
+					Seller: admitUser.String(), MarketId: admitMarketID,
+					TotalAssets: admitCoins(ws, "total"), BidOrderIds: admitIDs(ws),
+					SellerSettlementFlatFee: admitCoinPtr(ws, "sflat"), AskOrderCreationFee: admitCoinPtr(ws, "cfee"),
+				}
+				if verr := msg.ValidateBasic(); verr != nil {
+					return "err:invalid"
+				}
+				_, err = ms.FillBids(ctx, msg)
+			} else {
+				msg := &exchange.MsgFillAsksRequest{
+					Buyer: admitUser.String(), MarketId: admitMarketID,
+					TotalPrice: admitCoin(kvArg(ws, "price")), AskOrderIds: admitIDs(ws),
+					BuyerSettlementFees: admitCoins(ws, "fees"), BidOrderCreationFee: admitCoinPtr(ws, "cfee"),
+				}
+				if verr := msg.ValidateBasic(); verr != nil {
+					return "err:invalid"
+				}
+				_, err = ms.FillAsks(ctx, msg)
+			}
+		default:
+			return "bad-op"
+		}
+		if err != nil {
+			return admitClass(err)
+		}
+		return "ok"
+	})
+}
+
+// execFillGate: a fill line without ids= names an absent order; the outcome is observed up to
+// the order lookup (the market's gate).
+func (e *admitEnv) execFillGate(ctx sdk.Context, ms exchange.MsgServer, ws []string) string {
+	return Guard(func() string {
+		var err error
+		switch ws[0] {
 		case "fillbids":
 			msg := &exchange.MsgFillBidsRequest{
 				Seller: admitUser.String(), MarketId: admitMarketID,
@@ -969,7 +1021,7 @@ func (g *admitGen) op() string {
 			flat = &admitCoinT{d, a}
 		}
 		return fmt.Sprintf("askprice ssr=%s price=%s flat=%s", admitRatiosStr(rs), admitCoinStr(&p), admitCoinStr(flat))
-	case k < 660:
+	case k < 630:
 		g.out.Count("op:buyerfee")
 		small := r.Chance(65)
 		fl := g.flats(small)
@@ -985,12 +1037,12 @@ func (g *admitGen) op() string {
 		}
 		g.out.Count("cat:buyerfee:" + admitBuyerCat(fl, rs, p, fee))
 		return fmt.Sprintf("buyerfee bsf=%s bsr=%s price=%s fee=%s", admitCoinsStr(fl), admitRatiosStr(rs), admitCoinStr(&p), admitCoinsStr(fee))
-	case k < 730:
+	case k < 700:
 		g.out.Count("op:cancreate")
 		kind := Pick(r, []string{"ask", "bid", "commit"})
 		reqs, attrs := g.reqAndAttrs(r.Chance(20))
 		return fmt.Sprintf("cancreate kind=%s reqs=%s attrs=%s", kind, admitStrsStr(reqs), admitStrsStr(attrs))
-	case k < 810:
+	case k < 780:
 		g.out.Count("op:createask")
 		req := admitNewCfg()
 		ex := g.flags("order", req)
@@ -1023,7 +1075,7 @@ func (g *admitGen) op() string {
 		return fmt.Sprintf("createask %s caf=%s ssf=%s ssr=%s ra=%s attrs=%s bal=%s assets=%s price=%s sflat=%s cfee=%s",
 			admitFlagsStr(ex, req), admitCoinsStr(caf), admitCoinsStr(ssf), admitRatiosStr(ssr), admitStrsStr(reqs), admitStrsStr(attrs),
 			g.fund(need), admitCoinStr(&assets), admitCoinStr(&p), admitCoinStr(sflat), admitCoinStr(cfee)) + hist
-	case k < 900:
+	case k < 870:
 		g.out.Count("op:createbid")
 		req := admitNewCfg()
 		ex := g.flags("order", req)
@@ -1053,7 +1105,7 @@ func (g *admitGen) op() string {
 		return fmt.Sprintf("createbid %s cbf=%s bsf=%s bsr=%s rb=%s attrs=%s bal=%s assets=%s price=%s fees=%s cfee=%s",
 			admitFlagsStr(ex, req), admitCoinsStr(cbf), admitCoinsStr(bsf), admitRatiosStr(bsr), admitStrsStr(reqs), admitStrsStr(attrs),
 			g.fund(need), admitCoinStr(&assets), admitCoinStr(&p), admitCoinsStr(fees), admitCoinStr(cfee)) + hist
-	case k < 950:
+	case k < 920:
 		g.out.Count("op:commit")
 		req := admitNewCfg()
 		ex := g.flags("commit", req)
@@ -1079,7 +1131,10 @@ func (g *admitGen) op() string {
 		}
 		return fmt.Sprintf("commit %s ccf=%s rc=%s attrs=%s bal=%s amount=%s cfee=%s",
 			admitFlagsStr(ex, req), admitCoinsStr(ccf), admitStrsStr(reqs), admitStrsStr(attrs), g.fund(need), admitCoinsStr(amount), admitCoinStr(cfee)) + hist
-	case k < 975:
+	case k < 960:
+		if r.Chance(85) {
+			return g.opFillBidsFull()
+		}
 		g.out.Count("op:fillbids")
 		req := admitNewCfg()
 		ex := g.flags("fill", req)
@@ -1096,6 +1151,9 @@ func (g *admitGen) op() string {
 			admitFlagsStr(ex, req), admitCoinsStr(caf), admitCoinsStr(ssf), admitStrsStr(reqs), admitStrsStr(attrs),
 			admitCoinStr(g.flatOffer(aim.flats["ssf"], true)), admitCoinStr(g.flatOffer(aim.flats["caf"], true))) + hist
 	default:
+		if r.Chance(85) {
+			return g.opFillAsksFull()
+		}
 		g.out.Count("op:fillasks")
 		req := admitNewCfg()
 		ex := g.flags("fill", req)
